@@ -175,6 +175,10 @@ def prepare_fixed_decimal(data, schema):
     bits_req = unscaled_datum.bit_length() + 1
 
     size_in_bits = size * 8
+    if bits_req > size_in_bits:
+        raise ValueError(
+            f"The decimal does not fit in the fixed size of {size} bytes"
+        )
     offset_bits = size_in_bits - bits_req
 
     mask = 2**size_in_bits - 1
@@ -192,7 +196,7 @@ def prepare_fixed_decimal(data, schema):
 
     tmp = BytesIO()
 
-    if sign:
+    if sign and unscaled_datum:
         unscaled_datum = (1 << bits_req) - unscaled_datum
         unscaled_datum = mask | unscaled_datum
         for index in range(size - 1, -1, -1):
